@@ -346,6 +346,6 @@ def strat(draw, tier):
 
 
 PARTS = [
-    Part("select_hdu_and_wcs", exec_case, strategy=strat, examples={"quick": 800, "thorough": 40000}, shards={"quick": 16, "thorough": 16},
+    Part("select_hdu_and_wcs", exec_case, strategy=strat, examples={"quick": 1600, "thorough": 40000}, shards={"quick": 16, "thorough": 16},
          budget_s={"quick": 60, "thorough": 1200}, describe="generated multi-extension collections x selectors x routes"),
 ]
